@@ -18,7 +18,7 @@ package gep
 //@ # isptr(r, e, as): r is a pointer to e in address space as
 //@ macro isptr(r types.Type, e types.Type, as types.AddrSpace) bool = typeis(r, "*types.PointerType") && cast(r, "*types.PointerType").ElemType == e && cast(r, "*types.PointerType").AddrSpace == as
 //@ func ResultType
-//@   props C07 C03
+//@   props C07 C03 C06
 //@   # the base is a pointer or a (non-empty) vector of pointers
 //@   requires src != nil && (typeis(src, "*types.PointerType") || (typeis(src, "*types.VectorType") && cast(src, "*types.VectorType").Len != 0 && typeis(cast(src, "*types.VectorType").ElemType, "*types.PointerType")))
 //@   # every index after the first steps into an aggregate; struct fields are selected by in-range constants
